@@ -434,7 +434,8 @@ def run_property(prop_id, tier, seed, only_parts=None, n_scale=1.0):
     # harness problem, not a pass
     for p in parts:
         pp = per_part.get(p.name)
-        if pp and p.min_nontrivial_frac > 0 and pp["evaluations"] > 20:
+        part_has_violation = any(k[0] == p.name for k in best_by_sig)
+        if pp and p.min_nontrivial_frac > 0 and pp["evaluations"] > 20 and not part_has_violation:
             frac = len(pp["distinct_nontrivial"]) / pp["evaluations"]
             if frac < p.min_nontrivial_frac:
                 harness_errors.append(
